@@ -19,7 +19,7 @@ CLAUSES = ('C15',)
 TECHNIQUE = 'structural cache-file corruptor (byte, text and JSON level) and wrong-typed arguments on top of generated trees with a valid cache; oracle = bit-identical tree incl. inode, empty temp dir, no user function called'
 RULE = ('Each evaluation = one refused-call attempt on a tree produced by a generated program (1-2 committed builds, outputs and '
         'created directories present): wrong-typed value at one argument position of build/build_versioned/clean, wrong build '
-        'name, cache path that is a directory, or a corrupted cache file (truncation at header/middle/trailer/offset classes, '
+        'name, cache path that is a directory, or a corrupted cache file (each of these also through a symbolic link at the cache path) (truncation at header/middle/trailer/offset classes, '
         'bit flip at a drawn position, empty file, not gzip, gzip of non-JSON, gzip of JSON with wrong shape / other software / '
         'newer cacheFileVersion / missing or mistyped keys / unknown operation fields) for both build and clean. A call that '
         'raises without having called any user function is a rejection and must leave the tree bit-identical (bytes, mtime_ns, '
@@ -163,6 +163,39 @@ type_specs = st.sampled_from([
 BAD = {'int': 123, 'none': None, 'bytes': b'name', 'str': 'not callable', 'list': ['x'], 'nonjson': {'f0': {1, 2}}}
 
 
+def link_path(h, spec):
+    """The path whose link state is compared before/after an attempt made through a symbolic link."""
+    return os.path.join(h.R, 'cache_link') if spec['kind'] == 'directory' else h.cache
+
+
+def make_link(h, spec):
+    """The cache path handed to the library is a symbolic link: to the (valid, misnamed or damaged) cache file that was
+    moved aside, or - for the directory class - to a directory.  stat and open follow links, so the library has to treat
+    the link like its target."""
+    if spec['kind'] == 'directory':
+        d = os.path.join(h.R, 'linked_dir')
+        if not os.path.isdir(d):
+            os.mkdir(d)
+        os.symlink(d if spec['link'] == 'abs' else 'linked_dir', link_path(h, spec))
+    else:
+        real = h.cache + '.real'
+        os.rename(h.cache, real)
+        os.symlink(real if spec['link'] == 'abs' else os.path.basename(real), h.cache)
+
+
+def undo_link(h, spec):
+    lp = link_path(h, spec)
+    if os.path.islink(lp):
+        os.remove(lp)
+    if spec['kind'] != 'directory' and os.path.isfile(h.cache + '.real') and not os.path.lexists(h.cache):
+        os.rename(h.cache + '.real', h.cache)
+
+
+def link_state(h, spec):
+    lp = link_path(h, spec)
+    return (os.path.islink(lp), os.readlink(lp) if os.path.islink(lp) else None)
+
+
 def attempt(h, spec, called):
     """Perform one refused-call attempt; returns (class, raised?, exception) - the caller compares snapshots."""
     from file_builder import FileBuilder
@@ -191,6 +224,8 @@ def attempt(h, spec, called):
         name = spec.get('name', 'another build')
     elif spec['kind'] == 'directory':
         cache = os.path.dirname(h.cache) if os.path.dirname(h.cache) != h.R else h.R
+        if spec.get('link'):
+            cache = link_path(h, spec)
     try:
         if api == 'build':
             FileBuilder.build(cache, name, func)
@@ -241,6 +276,10 @@ def run_tree(data, counters, fails, nontriv, samples, n_attempts):
         rich = bool(lc['outputs']) and bool(lc['created'])
         for _ in range(n_attempts):
             spec = data.draw(st.one_of(corruption_specs, corruption_specs, type_specs))
+            if spec['kind'] != 'type' and data.draw(st.sampled_from(range(5))) == 0:
+                spec = dict(spec, link=data.draw(st.sampled_from(['abs', 'rel'])))
+                make_link(h, spec)
+                counters['attempts_through_symlink'] += 1
             if spec['kind'] not in ('type', 'name', 'directory'):
                 spec = dict(spec, api=data.draw(st.sampled_from(['build', 'build', 'clean'])))
                 cls, blob = corrupt(valid, spec)
@@ -249,6 +288,7 @@ def run_tree(data, counters, fails, nontriv, samples, n_attempts):
                 os.utime(h.cache, ns=(st_valid.st_atime_ns, st_valid.st_mtime_ns))
             evals += 1
             pre = snapshot(h.R)
+            lk_pre = link_state(h, spec) if spec.get('link') else None
             tmp_pre = h.sb.tmp_listing()
             called = []
             try:
@@ -256,6 +296,7 @@ def run_tree(data, counters, fails, nontriv, samples, n_attempts):
             except Exception:
                 raise
             post = snapshot(h.R)
+            lk_post = link_state(h, spec) if spec.get('link') else None
             case = {'prog': h.prog_rel, 'cache': cache_rel, 'steps': h.steps, 'attempt': spec}
             counters['attempt_' + cls] += 1
             rejected = exc is not None and not called
@@ -267,10 +308,10 @@ def run_tree(data, counters, fails, nontriv, samples, n_attempts):
                     if len(samples) < 3:
                         samples.append({'attempt': spec, 'exception': type(exc).__name__, 'cache': cache_rel, 'steps': h.steps,
                                         'outputs': sorted(h.relp(p) for p in lc['outputs'])})
-                if post != pre:
+                if post != pre or lk_post != lk_pre:
                     diff = sorted(h.relp(p) for p in set(pre) | set(post) if pre.get(p) != post.get(p))
                     fails.append(failure('C15.side_effect', 'rejected %s call (%s) changed the tree' % (spec.get('api', 'build'), cls), case,
-                                         'exception=%r changed=%r' % (exc, diff[:8])))
+                                         'exception=%r changed=%r link=%r->%r' % (exc, diff[:8], lk_pre, lk_post)))
                 if h.sb.tmp_listing() != tmp_pre:
                     fails.append(failure('C15.tempdir', 'rejected call left a temporary directory behind', case, repr(h.sb.tmp_listing())))
             elif exc is not None:
@@ -292,6 +333,8 @@ def run_tree(data, counters, fails, nontriv, samples, n_attempts):
                 with open(h.cache, 'wb') as f:
                     f.write(valid)
                 os.utime(h.cache, ns=(st_valid.st_atime_ns, st_valid.st_mtime_ns))
+            if spec.get('link'):
+                undo_link(h, spec)
         return evals
     finally:
         h.close()
@@ -330,17 +373,21 @@ def replay(case):
         with open(h.cache, 'rb') as f:
             valid = f.read()
         stv = os.stat(h.cache)
+        if spec.get('link'):
+            make_link(h, spec)
         if spec['kind'] not in ('type', 'name', 'directory'):
             cls, blob = corrupt(valid, spec)
             with open(h.cache, 'wb') as f:
                 f.write(blob)
             os.utime(h.cache, ns=(stv.st_atime_ns, stv.st_mtime_ns))
         pre = snapshot(h.R)
+        lk_pre = link_state(h, spec) if spec.get('link') else None
         called = []
         cls, exc = attempt(h, spec, called)
         post = snapshot(h.R)
+        lk_post = link_state(h, spec) if spec.get('link') else None
         if exc is not None and not called:
-            if post != pre:
+            if post != pre or lk_post != lk_pre:
                 fails.append(failure('C15.side_effect', 'rejected %s call (%s) changed the tree' % (spec.get('api', 'build'), cls), case, repr(exc)))
             if h.sb.tmp_listing():
                 fails.append(failure('C15.tempdir', 'rejected call left a temporary directory behind', case, ''))
